@@ -115,6 +115,13 @@ class Interp:
             try:
                 out += fn(trial)
             except NeedFork as nf:
+                prior = [pol for c, pol in base.conds if c.desc == nf.cond.desc]
+                if prior:
+                    # the same atomic condition was decided earlier on this path: stay consistent
+                    b = _fork(base)
+                    b.decisions[id(nf.node)] = prior[-1]  # type: ignore[attr-defined]
+                    work.append(b)
+                    continue
                 for d in (True, False):
                     b = _fork(base)
                     b.decisions[id(nf.node)] = d  # type: ignore[attr-defined]
@@ -163,6 +170,10 @@ class Interp:
                     u = Unknown(f"{value!r}[{i}]")
                     u._elem_of = (value.rec, i)  # type: ignore[attr-defined]
                     items.append(u)
+            if isinstance(value, TRef):
+                typ = value.typ[1] if value.typ[0] == "opt" else value.typ
+                if typ[0] == "cls" and len(typ[1].fields()) == len(target.elts):
+                    items = [self.ev.attr(value, fld.name, node, st) for fld in typ[1].fields()]
             if items is None or len(items) != len(target.elts):
                 for el in target.elts:
                     self.assign(el, Unknown(unparse(node)), st, node)
